@@ -11,6 +11,7 @@ mod c14;
 mod c16;
 mod c17;
 mod c18;
+mod c20;
 
 use vrt::Tier;
 
@@ -56,6 +57,7 @@ fn main() {
         "C16" => c16::main(&args),
         "C18" => c18::main(&args),
         "C17" => c17::main(&args),
+        "C20" => c20::main(&args),
         "C14" => c14::main(&args),
         "setup" => {
             // generate and build every quick-tier corpus so that the first quick check is fast
